@@ -86,7 +86,7 @@ def instances(tier):
             ('stats_tasks', None, None, ('DONE', 'DONE')), ('stats_tasks', None, None, ('DONE', 'FAILED', 'SKIPPED')),
             ('stats_tests', None, None, ((True,), (True, True))), ('stats_tests', None, None, ((True,), (False,), None)),
             ('stats_labels', None, None, ((True, 'd1'), (True, 'd2'))), ('stats_labels', None, None, ((True, 'd1'), (False, 'd1'), (True, None))),
-            ('failed', None, None, None)]
+            ('failed', None, None, None), ('failed_exc', None, None, None)]
     return out
 
 
@@ -162,7 +162,7 @@ def job(inst):
     verdict0 = bool(make(inst)[1])
     # determinism of evaluate()
     test, _ = make(inst)
-    if inst[0] != 'failed':
+    if not inst[0].startswith('failed'):
         fresh = strip_private(deepsnap(make_unevaluated(inst)))
         one = state_of(test.evaluate())
         after = strip_private(deepsnap(test))
